@@ -458,7 +458,7 @@ type RBody struct {
 }
 
 type ROp struct {
-	K    string `json:"k"` // new, over, del, delabs, resave, flush, reopen, crash, check, faultflush, faultfill, rekey
+	K    string `json:"k"` // new, over, del, delabs, resave, flush, reopen, crash, check, faultflush, faultfill, rekey, standby, takeover
 	Pick int    `json:"pick,omitempty"`
 	B    RBody  `json:"b"`
 	Rk   *Rekey `json:"rk,omitempty"`
@@ -556,11 +556,20 @@ func genROps(t *rapid.T, c *RCase, maxOps int) int {
 	if c.Backend != "etcd" {
 		kinds = append(kinds, "rekey", "rekey")
 	}
+	if c.Backend == "mem" || c.Backend == "budget" {
+		// two members over one etcd and one shared region storage
+		kinds = append(kinds, "standby", "takeover", "takeover")
+	}
 	nOps := rapid.IntRange(0, maxOps).Draw(t, "nOps")
 	news := 0
 	for i := 0; i < nOps; i++ {
 		op := ROp{K: pick(t, "kind", kinds), Pick: rapid.IntRange(0, 1000).Draw(t, "pick")}
 		switch op.K {
+		case "standby":
+			op.Rk = &Rekey{Method: pick(t, "sbMethod", []int{0, 1, 2, 3})}
+		case "takeover":
+			op.Rk = &Rekey{Fault: pick(t, "toFault", []string{"", "", "failbefore", "lostack", "notleader"}),
+				Retry: pick(t, "toRetry", []bool{false, false, true})}
 		case "rekey":
 			op.Rk = &Rekey{Method: pick(t, "rkMethod", []int{0, 1, 2, 3, 1, 3}),
 				Fault: pick(t, "rkFault", []string{"", "failbefore", "failbefore", "lostack", "notleader"}),
@@ -572,6 +581,20 @@ func genROps(t *rapid.T, c *RCase, maxOps int) int {
 			}
 		}
 		c.Ops = append(c.Ops, op)
+	}
+	if (c.Backend == "mem" || c.Backend == "budget") && maxOps >= 10 && pick(t, "twoMembers", []bool{true, false, false}) {
+		// a second member starts, the leader rotates its data key and saves, the second member takes over
+		script := []ROp{
+			{K: "standby", Rk: &Rekey{Method: pick(t, "sbMethod", []int{0, 1, 2, 3})}},
+			{K: "rekey", Rk: &Rekey{Method: pick(t, "rkMethod", []int{1, 2, 3})}},
+			{K: "new", B: genRBody(t, c.Slots)},
+			{K: "takeover", Rk: &Rekey{}},
+		}
+		news++
+		at := rapid.IntRange(0, len(c.Ops)).Draw(t, "scriptAt")
+		ops := append([]ROp(nil), c.Ops[:at]...)
+		ops = append(ops, script...)
+		c.Ops = append(ops, c.Ops[at:]...)
 	}
 	return news
 }
@@ -899,7 +922,7 @@ func runRegionCase(c RCase) (info vkit.Info, err error) {
 	defer f.cleanup()
 	usesEnc := c.Enc > 0
 	for _, op := range c.Ops {
-		if op.K == "rekey" && op.Rk != nil {
+		if (op.K == "rekey" || op.K == "standby" || op.K == "takeover") && op.Rk != nil {
 			usesEnc = true
 		}
 	}
@@ -979,6 +1002,9 @@ func runRegionCase(c RCase) (info vkit.Info, err error) {
 	}
 	poolOf := map[uint64]int{} // id -> pool index
 	held := map[uint64]*metapb.Region{}
+	keyOf := map[uint64]uint64{}       // region id -> id of the data key of its last acknowledged save
+	var other *encryptionkm.KeyManager // the second member's key manager (no background loop: it can be stale)
+	otherMethod, leaderMethod := 0, c.Enc
 	// promote: an unacknowledged save turned out durable: it is the current version now
 	promote := func(id uint64, r *metapb.Region) {
 		if _, wasLive := m.live[id]; !wasLive {
@@ -1022,8 +1048,40 @@ func runRegionCase(c RCase) (info vkit.Info, err error) {
 		}
 		m.save(want)
 		held[id] = obj
+		keyOf[id] = 0
+		if f.km != nil {
+			if kid, _, e := f.km.GetCurrentKey(); e == nil {
+				keyOf[id] = kid // the data key this record was encrypted with (0: plaintext)
+			}
+		}
 		if isTop(id) {
 			hasTop = true
+		}
+		return nil
+	}
+	// checkKeys: every data key a stored live region was encrypted with must be in the
+	// dictionary a brand-new key manager loads from etcd.
+	checkKeys := func(when string) error {
+		if ev == nil {
+			return nil
+		}
+		var fresh *encryptionkm.KeyManager
+		done := map[uint64]bool{}
+		for _, id := range sortedIDs(m.live) {
+			kid := keyOf[id]
+			if kid == 0 || done[kid] {
+				continue
+			}
+			done[kid] = true
+			if fresh == nil {
+				var e error
+				if fresh, e = ev.newKM(0); e != nil {
+					return fmt.Errorf("%s: a brand-new key manager cannot be created from etcd: %v", when, e)
+				}
+			}
+			if _, e := fresh.GetKey(kid); e != nil {
+				return fmt.Errorf("%s: region %d (and maybe others) was saved under data key %d, which is no longer in the key dictionary stored in etcd: %v", when, id, kid, e)
+			}
 		}
 		return nil
 	}
@@ -1456,11 +1514,34 @@ func runRegionCase(c RCase) (info vkit.Info, err error) {
 				return info, fmt.Errorf("op %d: cannot reopen leveldb: %v", i, e)
 			}
 			info.ClassIf(failed > 0, "autoflush-write-fault")
-		case "rekey":
+		case "standby":
+			// a second member starts now: its key manager loads the dictionary from etcd and
+			// has no background loop, so it does not follow later changes
+			if op.Rk == nil || ev == nil || m.leveldb {
+				break
+			}
+			mth := op.Rk.Method
+			if mth < 0 || mth > 3 {
+				mth = 0
+			}
+			km, e := ev.newKM(mth)
+			if e != nil {
+				return info, fmt.Errorf("op %d: NewKeyManager(%s) failed: %v", i, encMethods[mth], e)
+			}
+			other, otherMethod = km, mth
+			info.Class("second-member-started")
+		case "rekey", "takeover":
 			if op.Rk == nil || ev == nil {
 				break
 			}
+			takeover := op.K == "takeover"
+			if takeover && (other == nil || m.leveldb) {
+				break
+			}
 			rk := *op.Rk
+			if takeover {
+				rk.Method = otherMethod
+			}
 			if rk.Method < 0 || rk.Method > 3 {
 				rk.Method = 0
 			}
@@ -1480,8 +1561,10 @@ func runRegionCase(c RCase) (info vkit.Info, err error) {
 			if e != nil {
 				return info, fmt.Errorf("op %d: the key dictionary in etcd cannot be loaded by a brand-new key manager: %v", i, e)
 			}
-			km2, e := ev.newKM(rk.Method)
-			if e != nil {
+			var km2 *encryptionkm.KeyManager
+			if takeover {
+				km2 = other // created earlier in the case, possibly stale
+			} else if km2, e = ev.newKM(rk.Method); e != nil {
 				return info, fmt.Errorf("op %d: NewKeyManager(%s) failed: %v", i, encMethods[rk.Method], e)
 			}
 			fault := rk.Fault
@@ -1525,15 +1608,27 @@ func runRegionCase(c RCase) (info vkit.Info, err error) {
 					return info, e
 				}
 			}
-			f.km = km2
+			if takeover {
+				// the former leader stays alive as the second member, with what it knows now
+				other, otherMethod = f.km, leaderMethod
+				if other == nil {
+					otherMethod = 0
+				}
+				info.Class("takeover")
+				info.ClassIf(curMethod != rk.Method, "takeover-rotation-needed")
+			}
+			f.km, leaderMethod = km2, rk.Method
 			if m.leveldb {
 				if e := f.openRS(); e != nil {
 					return info, fmt.Errorf("op %d: reopen failed: %v", i, e)
 				}
 			}
 			st = f.storage()
-			info.Class("rekey")
-			info.ClassIf(curMethod != rk.Method, "rekey-rotation-needed")
+			if e := checkKeys(when); e != nil {
+				return info, e
+			}
+			info.ClassIf(!takeover, "rekey")
+			info.ClassIf(!takeover && curMethod != rk.Method, "rekey-rotation-needed")
 			info.ClassIf(saveFails, "rekey-key-save-failed")
 			info.ClassIf(saveFails && curMethod != rk.Method, "rekey-key-save-failed-while-rotation-needed")
 			info.ClassIf(fault == "lostack", "rekey-key-save-lost-ack")
